@@ -30,6 +30,12 @@ func (c *FamilyInList) WriteHTMLTo(w io.Writer) (int64, error) {
 		date = n.Value()
 	}
 
+	// When living individuals are hidden nothing about them is published,
+	// which includes when they married.
+	if c.visibility == LivingVisibilityHide && familyHasLivingSpouse(c.family) {
+		date = "-"
+	}
+
 	husband := NewIndividualLink(c.document, c.family.Husband().Individual(),
 		c.visibility, c.placesMap)
 	wife := NewIndividualLink(c.document, c.family.Wife().Individual(),
